@@ -34,6 +34,10 @@ namespace verif
         std::size_t max_states = 2000000;
         double      deadline_s = 1e18; // absolute time (now_s) at which to stop
         int         max_depth  = 1 << 20;
+        // snapshot mode: keep the world bytes of every not yet expanded state instead of replaying its history;
+        // the history is still replayed from scratch (canon-on-replay) for every verify_every-th state
+        bool        snapshots    = false;
+        std::size_t verify_every = 16;
     };
 
     struct explore_result
@@ -122,6 +126,7 @@ namespace verif
         explore_result                                  res;
         std::set<std::string>                           seen_fp;
         std::vector<u8>                                 snap;
+        std::vector<std::vector<u8>>                    snaps; // snapshot mode: per node, freed after expansion
 
         static hash128 key()
         {
@@ -235,9 +240,43 @@ namespace verif
             res.name  = name;
             nodes.clear();
             seen.clear();
+            snaps.clear();
             snap.resize(S::world_size());
 
             S::init();
+            if (!T().violations.empty())
+            {
+                // the constructor itself violates a monitor: report with an empty history
+                auto vs = T().violations;
+                for (auto& v : vs)
+                {
+                    found_violation f;
+                    f.monitor     = v.monitor;
+                    f.tag         = v.tag;
+                    f.detail      = v.detail;
+                    f.fingerprint = v.monitor + "|" + v.tag + "|construct";
+                    f.history     = {"<construct>"};
+                    int again     = 0;
+                    for (int round = 0; round < 2; ++round)
+                    {
+                        S::init();
+                        for (auto& v2 : T().violations)
+                            if (v2.monitor == v.monitor && v2.tag == v.tag)
+                            {
+                                ++again;
+                                break;
+                            }
+                    }
+                    f.confirmed = again == 2;
+                    if (seen_fp.insert(f.fingerprint).second)
+                        res.violations.push_back(f);
+                }
+                res.states      = 1;
+                res.transitions = 1;
+                res.stop_reason = "constructor violation";
+                res.wall_s      = now_s() - t0;
+                return res;
+            }
             T().clear();
             node root{0, 0, 0, key()};
             nodes.push_back(root);
@@ -272,23 +311,34 @@ namespace verif
                     break;
                 }
                 u32  idx = u32(head++);
-                auto ops = history_of(idx);
-                std::string why;
-                if (!rebuild(ops, &why))
+                bool have_snap = lim.snapshots && idx < snaps.size() && !snaps[idx].empty();
+                if (!have_snap || idx % lim.verify_every == 0)
                 {
-                    res.harness_errors.push_back("replay of a known state failed: " + why);
-                    continue;
+                    auto ops = history_of(idx);
+                    std::string why;
+                    if (!rebuild(ops, &why))
+                    {
+                        res.harness_errors.push_back("replay of a known state failed: " + why);
+                        continue;
+                    }
+                    ++res.replays;
+                    if (key() != nodes[idx].key)
+                    {
+                        res.harness_errors.push_back(
+                            "canon-on-replay mismatch: history replayed from scratch gives a "
+                            "different state key than the snapshot path (depth "
+                            + std::to_string(ops.size()) + ")");
+                        continue;
+                    }
+                    std::memcpy(snap.data(), S::world(), S::world_size());
                 }
-                ++res.replays;
-                if (key() != nodes[idx].key)
+                else
                 {
-                    res.harness_errors.push_back(
-                        "canon-on-replay mismatch: history replayed from scratch gives a "
-                        "different state key than the snapshot path (depth "
-                        + std::to_string(ops.size()) + ")");
-                    continue;
+                    std::memcpy(snap.data(), snaps[idx].data(), S::world_size());
+                    std::memcpy(S::world(), snap.data(), S::world_size());
                 }
-                std::memcpy(snap.data(), S::world(), S::world_size());
+                if (have_snap)
+                    std::vector<u8>().swap(snaps[idx]);
                 bool dirty = false;
                 int  n     = S::nops();
                 for (int op = 0; op < n; ++op)
@@ -318,6 +368,12 @@ namespace verif
                     {
                         node nn{idx, u16(op), u16(nodes[idx].depth + 1), k};
                         nodes.push_back(nn);
+                        if (lim.snapshots)
+                        {
+                            snaps.resize(nodes.size());
+                            auto w = static_cast<const u8*>(S::world());
+                            snaps.back().assign(w, w + S::world_size());
+                        }
                         if (nn.depth > res.max_depth)
                             res.max_depth = nn.depth;
                     }
